@@ -67,7 +67,7 @@ static void setup_bfs(Runner &r, const Tier &t) {
     g_thor = t.thorough; g_roots.clear();
     std::vector<std::string> fonts = { gen_dir() + "/s_min.ttf", gen_dir() + "/s_full.ttf", gen_dir() + "/s_full_z.ttf", font_path("small.ttf") }; if (t.thorough) fonts.push_back(font_path("Padauk.ttf"));
     for (auto &f : fonts) for (unsigned o : { 0u, 2u, 4u, 6u, 7u }) for (int nr = 0; nr < 2; ++nr) g_roots.push_back({ f, o, nr == 1 });
-    r.ncases = g_roots.size(); r.case_alarm_s = 900;
+    r.ncases = g_roots.size(); r.case_alarm_s = unsigned(r.deadline_s) + 600;
     r.describe = [](uint64_t i) { JObj o; o.kv("font", g_roots[i].font).kv("face_options", g_roots[i].opts).kv("release_fn", !g_roots[i].no_release).kv("search", "BFS over API histories after gr_make_face, deduplicated on (live objects, outstanding table borrows)"); return o; };
     r.body = [](uint64_t ci, ShardCtl &ctl) {
         const Root &rt = g_roots[ci]; int depth = g_thor ? (rt.font.find("Padauk") != std::string::npos ? 4 : 7) : 5;
@@ -92,6 +92,7 @@ static void setup_bfs(Runner &r, const Tier &t) {
             if (ok && bal1 != bal0) { fail(h, "allocation imbalance after all objects were destroyed: " + std::to_string((long long)(bal1 - bal0))); ok = false; }
             return ok; };
         while (!q.empty() && !failed) {
+            if (deadline_hit(ctl)) break;
             Node n = q.front(); q.pop_front();
             if (!run(n.hist)) break;
             std::string key = keybuf; std::vector<int> en(enbuf, enbuf + nen);
